@@ -270,6 +270,11 @@ def run(chk, prog):
     chk.floor("M4", rule_M4(chk, prog), 6)
     from .c12_bounds import rule_M7
     chk.floor("M7", rule_M7(chk, u), 4)
+    # M8: containers handed to the task contexts are as long as the loops that index them there (c12_sizes.py)
+    from .c12_sizes import rule_M8
+    n8, sites8 = rule_M8(chk, prog.library())
+    chk.floor("M8 construction sites", sites8, 1)
+    chk.floor("M8", n8, 1)
     # fixture: a class that must be reported, and a twin that must not
     fx = dump_fixture(os.path.join(VERIF, "fixtures", "c12_m1.hpp.cpp"))
     from ..report import Check
